@@ -101,7 +101,7 @@ pub mod bitlem {
 /// `bits` has every bit of `f`
 pub open spec fn has(bits: i32, f: i32) -> bool { bits & f == f }
 
-#[derive(Clone, Copy)]
+#[derive(Clone, Copy, PartialEq, Eq, Structural)]
 pub struct OpenFlags { pub bits: i32 }
 impl OpenFlags {
     pub const O_RDWR: OpenFlags = OpenFlags { bits: libc::O_RDWR };
@@ -170,6 +170,7 @@ impl RenameFlags {
 pub struct ResolverFlags { pub bits: u64 }
 impl ResolverFlags {
     pub const NO_SYMLINKS: ResolverFlags = ResolverFlags { bits: libc::RESOLVE_NO_SYMLINKS };
+    pub fn empty() -> (r: ResolverFlags) ensures r.bits == 0 { ResolverFlags { bits: 0 } }
     pub open spec fn contains_spec(&self, o: ResolverFlags) -> bool { self.bits & o.bits == o.bits }
     pub fn contains(&self, o: ResolverFlags) -> (r: bool) ensures r == self.contains_spec(o) { self.bits & o.bits == o.bits }
     pub fn bits(&self) -> (r: u64) ensures r == self.bits { self.bits }
